@@ -9,10 +9,15 @@ ITEM_POOL = ["ab", "a c", "b-á", "c", "aa", "bb", "漢a", "A1/b", "abc", " a", 
 
 
 def make_cfg(rng, disabled=None):
+    inputless = rng.random() < 0.2
+    # a hidden input section still holds a query (given on the command line): the editing actions must leave it alone
+    extra = ["--query", rng.choice(["abcea", "a b-c", "ab", "áb 漢a"])] if inputless and rng.random() < 0.7 else []
+    if rng.random() < 0.25:
+        extra = extra + ["--tac"]      # the result list arrives reversed; cursor, tracking and selection rules are the same
     return sessions.Cfg(layout=rng.choice(["default", "reverse", "reverse-list"]), cycle=rng.random() < 0.5,
                         multi=rng.choice([None, 1, 2, 3, "inf", "inf"]), scroll_off=rng.choice([None, 0, 1, 5]),
-                        inputless=rng.random() < 0.1, disabled=(rng.random() < 0.4) if disabled is None else disabled,
-                        track=rng.random() < 0.35)
+                        inputless=inputless, disabled=(rng.random() < 0.4) if disabled is None else disabled,
+                        track=rng.random() < 0.35, extra=extra)
 
 
 def random_steps(rng, n, multi):
@@ -249,7 +254,7 @@ def run(ctx):
             ctx.sample({k: r[k] for k in ("act", "arg", "pre", "post")})
             if len(ctx.cov["samples"]) >= 4:
                 break
-    ctx.assumptions += ["jump mode, mouse, multi-line items, --gap and --tac are not modelled; sessions do not use them",
+    ctx.assumptions += ["jump mode, mouse, multi-line items and --gap are not modelled; sessions do not use them (--tac only reverses the list the editor is given)",
                         "queries and items are drawn from the FzfChars symbol table (incl. non-ASCII, wide)"]
     return "model_checking"
 
